@@ -326,6 +326,10 @@ pub struct ReplayFile {
     pub run_index: i64,
     pub minimised: bool,
     pub scenario: Value,
+    /// scenarios that must be run first, in the same process, for the violation to appear: state in the code
+    /// under test that outlives an analyzer instance (a process-wide static) only shows as a history of runs
+    #[serde(default, skip_serializing_if = "Vec::is_empty")]
+    pub prelude: Vec<Value>,
 }
 
 fn minimise<P: Prop>(scn: &P::Scn, v: &Violation, budget: Duration) -> (P::Scn, Violation, u64) {
@@ -359,6 +363,8 @@ struct Found<S> {
     idx: i64,
     scn: S,
     v: Violation,
+    /// the scenario the same worker thread ran just before this one
+    prev: Option<S>,
 }
 
 /// kernel thread id of the calling thread (Linux), 0 if unknown
@@ -407,6 +413,7 @@ pub fn run_batch<P: Prop>(o: &Opts) -> i32 {
             .stack_size(64 << 20)
             .spawn(move || {
                 let mut local = Vec::new();
+                let mut prev_scn: Option<P::Scn> = None;
                 let tid = own_tid();
                 cur[w].2.store(tid, Ordering::Relaxed);
                 loop {
@@ -439,14 +446,22 @@ pub fn run_batch<P: Prop>(o: &Opts) -> i32 {
                         }
                     }
                     let mut st = RunStats::default();
+                    // configuration dimension: one run in four has logging switched on (log arguments are evaluated)
+                    crate::logsim::set(i % 4 == 1);
+                    let _ = crate::logsim::take_events();
                     let out = run_caught::<P>(&scn, &mut st);
+                    if crate::logsim::is_on() {
+                        st.fault_n("logging_enabled_log_events_formatted", crate::logsim::take_events());
+                    }
+                    crate::logsim::set(true);
                     cur[w].0.store(0, Ordering::Relaxed);
                     let (found, sutp, herr) = match out {
                         RunOutcome::Ok => (None, None, None),
-                        RunOutcome::Violation(v) => (Some(Found { idx: i as i64, scn, v }), None, None),
+                        RunOutcome::Violation(v) => (Some(Found { idx: i as i64, scn: scn.clone(), v, prev: prev_scn.clone() }), None, None),
                         RunOutcome::SutPanic(s) => (None, Some(s), None),
                         RunOutcome::HarnessError(s) => (None, None, Some(s)),
                     };
+                    prev_scn = Some(scn);
                     local.push((i, st, found, sutp, herr));
                     if local.len() >= 64 {
                         results.lock().unwrap().append(&mut local);
@@ -564,7 +579,7 @@ pub fn run_batch<P: Prop>(o: &Opts) -> i32 {
             P::generate(&mut r, tier, i - n_sys)
         };
         let v = Violation::new("hang", "wall-limit", format!("run {} did not finish within {} s", i, P::run_wall_limit_s()));
-        founds.insert(0, Found { idx: i as i64, scn, v });
+        founds.insert(0, Found { idx: i as i64, scn, v, prev: None });
     }
 
     // group by (class,key): minimise and report the first of each group, count the rest
@@ -593,13 +608,30 @@ pub fn run_batch<P: Prop>(o: &Opts) -> i32 {
             run_index: f.idx,
             minimised: tried > 0,
             scenario: serde_json::to_value(&scn).unwrap_or(Value::Null),
+            prelude: vec![],
         };
         if let Err(e) = std::fs::write(&path, serde_json::to_string_pretty(&rf).unwrap_or_default()) {
             eprintln!("harness: cannot write replay file {}: {}", path, e);
             return 2;
         }
         // the replay must reproduce in a fresh process before the violation is believed
-        let ok = verify_replay_fresh(&path, &v);
+        let mut ok = verify_replay_fresh(&path, &v);
+        let (mut v, mut key) = (v, key);
+        if !ok {
+            // does it need a history? re-try with the scenario the same worker ran just before it (of any
+            // occurrence of the group): state that outlives an analyzer instance shows only across runs
+            for f2 in fs.iter().take(8) {
+                let Some(prev) = &f2.prev else { continue };
+                let v2 = Violation { class: f2.v.class.clone(), key: f2.v.key.clone(), detail: format!("{}\n  (appears only when another scenario has run before it in the same process: state in the code under test outlives the analyzer instance)", f2.v.detail) };
+                let rf2 = ReplayFile { property: P::ID.to_string(), engine: P::ENGINE.to_string(), class: v2.class.clone(), key: v2.key.clone(), detail: v2.detail.clone(), seed, run_index: f2.idx, minimised: false, scenario: serde_json::to_value(&f2.scn).unwrap_or(Value::Null), prelude: vec![serde_json::to_value(prev).unwrap_or(Value::Null)] };
+                if std::fs::write(&path, serde_json::to_string_pretty(&rf2).unwrap_or_default()).is_ok() && verify_replay_fresh(&path, &v2) {
+                    ok = true;
+                    v = v2;
+                    key = format!("{} [needs a preceding run]", key);
+                    break;
+                }
+            }
+        }
         if !ok {
             eprintln!("harness: replay of {} did not reproduce {}:{} in a fresh process - reporting as harness error, not as a violation", path, v.class, v.key);
             harness_errs.push(format!("unreproducible {}:{}", v.class, v.key));
@@ -639,7 +671,10 @@ pub fn run_batch<P: Prop>(o: &Opts) -> i32 {
         for h in harness_errs.iter().take(5) {
             eprintln!("harness error: {}", h);
         }
-        exit = 2;
+        // a violation that did reproduce from its replay file stands; otherwise this is the harness's problem
+        if exit != 1 {
+            exit = 2;
+        }
     }
     for (k, n) in &sut_panics {
         println!("  note: {} runs aborted by a panic inside the code under test ({}); owned by C01", n, k);
@@ -739,9 +774,14 @@ pub fn replay<P: Prop>(path: &str, rf: &ReplayFile) -> i32 {
     let limit = Duration::from_secs(P::run_wall_limit_s());
     let (tx, rx) = std::sync::mpsc::channel();
     let scn2 = scn.clone();
+    let prelude: Vec<P::Scn> = rf.prelude.iter().filter_map(|v| serde_json::from_value(v.clone()).ok()).collect();
     std::thread::Builder::new()
         .stack_size(64 << 20)
         .spawn(move || {
+            for p in &prelude {
+                let mut st = RunStats::default();
+                let _ = run_caught::<P>(p, &mut st);
+            }
             let mut st = RunStats::default();
             let out = run_caught::<P>(&scn2, &mut st);
             let _ = tx.send(match out {
